@@ -114,9 +114,9 @@ def trace_prefix(tracefile, trace_no, step):
 LINE_RE = re.compile(r"^(XFAIL|ORACLE|DRIFT) trace=(\S+) step=(\d+) op=(\S+) (.*)$")
 
 
-def run_kernel(ctx, pid, plans, accept_oracle=None, extra_stats=None, level_when_proved="proof", gen=()):
+def run_kernel(ctx, pid, plans, accept_oracle=None, extra_stats=None, level_when_proved="proof", gen=(), extra_props=()):
     """plans: list of dict(profile, kind, traces(q,t), ops, queries).  Reports through ctx."""
-    res = proof.proof_stage(ctx, pid, gen=gen)
+    res = proof.proof_stage(ctx, pid, gen=gen, extra_props=extra_props)
     workdir = BUILD / "work" / ("%s-%d-%s" % (pid, ctx.seed, ctx.tier))
     shutil.rmtree(workdir, ignore_errors=True)
     stats = collections.Counter()
